@@ -506,7 +506,14 @@ func c17r3(c *Ctx) {
 					if b, ok := f.Info().Uses[id].(*types.Builtin); ok {
 						switch {
 						case b.Name() == "delete" && len(call.Args) == 2 && lhsFieldA(f, call.Args[0]) == fld:
-							found = true
+							// every entry: the key walks this very map (a loop over the *other* overlay's keys misses
+							// the buckets that only this one has an entry for)
+							ir.Walk(f.Body, false, func(m ast.Node) {
+								if rs, isRange := m.(*ast.RangeStmt); isRange && rs.Key != nil && containsNode(rs.Body, call) &&
+									lhsFieldA(f, rs.X) == fld && f.ObjOf(rs.Key) != nil && f.ObjOf(rs.Key) == f.ObjOf(ast.Unparen(call.Args[1])) {
+									found = true
+								}
+							})
 						case b.Name() == "clear" && len(call.Args) == 1 && lhsFieldA(f, call.Args[0]) == fld:
 							found = true
 						}
